@@ -115,6 +115,14 @@ func init() {
 			stdPeerTree(p, false)
 			pr.Peers = []*Peer{p}
 			p.Connect()
+			// a slow subscriber (fault net.slow_write): writing a notification to it takes a
+			// fraction of the period - the period of the refreshes must not grow by that
+			var slowWrite time.Duration
+			if w.T.Bool(1, 3, "slow-subscriber") {
+				// (short against every period the stack may choose: a write that outlasts a tick
+				// would need dropped ticks, which rule T2 does not model)
+				slowWrite = []time.Duration{5 * time.Millisecond, 20 * time.Millisecond}[w.T.Choose(2, "slow-write")]
+			}
 			// every notification of heartbeat data is one refresh
 			p.OnRecv = func(s *Sent) {
 				if Classifier(s) != "notify" || s.D == nil || len(s.D.Payload.Cmd) == 0 {
@@ -137,6 +145,13 @@ func init() {
 					r.timeout = string(*hb.HeartbeatTimeout)
 				}
 				d.ref = append(d.ref, r)
+				if slowWrite > 0 && simrt.Self() != nil && w.FaultsOn {
+					// (only if the write is over before the next tick of a busy ticker, rule T2)
+					if lim, have := w.S.BusyTickLimit(); !have || time.Now().Add(slowWrite+2*time.Nanosecond).Before(lim) {
+						w.Fault("net.slow_write")
+						w.Sleep(slowWrite)
+					}
+				}
 			}
 			hbm := le.E.HeartbeatManager()
 			ready := false
